@@ -1,7 +1,7 @@
 (* Entry points of the correspondence check: one call per case record written by the
    harness.  Everything here is executable; nothing is proved in this file. *)
 From VJ Require Import Model.Str Model.Json Model.Ast Model.State Model.Util Model.Text
-  Model.Directive Model.Lower Model.Visitor Model.Types Model.Options Spec.Plain Spec.Pragma Spec.OutViews Spec.DcViews Spec.Site Spec.SiteCheck Lemmas.NodeInd.
+  Model.Directive Model.Lower Model.Visitor Model.Types Model.Options Spec.Plain Spec.Pragma Spec.OutViews Spec.DcViews Spec.Site Spec.SiteCheck Spec.Context Lemmas.NodeInd.
 From VJ Require Import Gen.Tables.
 
 Definition jfield_d (k : String.string) (j : jv) : jv :=
@@ -133,6 +133,14 @@ Definition extras (c : jv) (model_out : jv) : list (str * str) :=
                           end
                       | _, _ => s_ "none"
                       end);
+    (* C10: the probe statement inside the composed module (main run) and alone (alt run) *)
+    (s_ "alt_site", if alt_ok then
+                      match find_site real, find_site (dec (jfield_d "output" alt)) with
+                      | Some a, Some b =>
+                          b2s (jv_eqb (canon_in real_j (enc a)) (canon_in (jfield_d "output" alt) (enc b)))
+                      | _, _ => s_ "none"
+                      end
+                    else s_ "none");
     (s_ "alt_strip", b2s (if alt_ok then
                             (* main run: optimize on; alt: optimize off *)
                             jv_eqb (enc (strip_hints real)) (jfield_d "output" alt)
